@@ -48,6 +48,16 @@ theorem evaluate_eq_general (c : CondM) (hs : c.Sound) (row : Row) :
     c.evaluate row = SpecC12.generalDecision c.pred row :=
   evaluate_eq_general' hs row
 
+/-- non-vacuity: a sound condition exists; it takes the shortcut on one row, the general path on
+another, and an evaluation error of the general path rejects a third -/
+example : ∃ c : CondM, c.Sound ∧
+    c.fastPath [(['x'], .int (.i 7))] = some true ∧
+    c.fastPath [(['x'], .int (.i8 7))] = none ∧ c.evaluate [(['x'], .int (.i8 7))] = true ∧
+    generalEval c.pred [(['x'], .null)] = .err ∧ c.evaluate [(['x'], .null)] = false :=
+  ⟨⟨.cmp ⟨['x'], .gt, .int 5⟩, some ⟨['x'], .gt, .int 5⟩, none⟩,
+   ⟨fun f hf => by simp only [Option.some.injEq] at hf; rw [← hf], fun _ _ h => by simp at h⟩,
+   by decide, by decide, by decide, by decide, by decide⟩
+
 /-- A predicate whose evaluation fails rejects the row (and `Evaluate` is a total Boolean function:
 there is no other outcome, in particular no abort). -/
 theorem eval_total_bool (c : CondM) (hs : c.Sound) (row : Row)
